@@ -890,6 +890,67 @@ class Lying:
         return iter(range(self.items))
 
 
+def identity_cases(only=None):
+    """Plain things are passed ON AS THEY ARE, whatever they are:
+    * callables that compare and hash EQUAL but are different objects with different behaviour (two calls, two functions);
+    * a call's RESULT that is a one-shot object (a generator) with several consumers: each receives the very object;
+    * a frozenset (and other containers `gather` does not know) that contains a node: handed on as the very object - it is not
+      one of the four structures that are rebuilt;
+    with and without `retry`, one and three workers."""
+    import dataclasses
+    viol, done = [], 0
+
+    @dataclasses.dataclass(frozen=True)
+    class Scale:
+        k: object
+
+        def __call__(self, x):
+            return (type(self.k).__name__, self.k * x)
+
+    for case in ([only] if only is not None else [[k, w, r] for k in ("equal-callables", "generator-result", "frozenset-argument")
+                                                  for w in (1, 3) for r in (None, 2)]):
+        kind, workers, retry = case
+        plan = uberjob.Plan()
+        what = None
+        try:
+            if kind == "equal-callables":
+                a, b = Scale(2), Scale(2.0)              # equal, same hash, different behaviour (int vs float)
+                assert a == b and hash(a) == hash(b)
+                out = [plan.call(a, 3), plan.call(b, 3), plan.call(b, 5), plan.call(a, 5)]
+                got = uberjob.run(plan, output=out, max_workers=workers, retry=retry, progress=None)
+                want = [("int", 6), ("float", 6.0), ("float", 10.0), ("int", 10)]
+                if got != want or [type(x[1]) for x in got] != [int, float, float, int]:
+                    what = f"calls of equal-but-different callables returned {got}, their own functions give {want}"
+            elif kind == "generator-result":
+                made = []
+
+                def produce():
+                    g = (i for i in range(3))
+                    made.append(g)
+                    return g
+                g = plan.call(produce)
+                first = plan.call(lambda x: (type(x).__name__, id(x)), g)
+                second = plan.call(lambda x: (type(x).__name__, id(x)), g)
+                plan.add_dependency(first, second)
+                got = uberjob.run(plan, output=[first, second], max_workers=workers, retry=retry, progress=None)
+                want = [("generator", id(made[0]))] * 2
+                if got != want:
+                    what = f"two consumers of a call that returned a generator received {[x[0] for x in got]} (the very object: {[x[1] == id(made[0]) for x in got]})"
+            else:
+                x = plan.call(lambda: 1)
+                fs = frozenset({x, 2})
+                got = uberjob.run(plan, output=plan.call(lambda s: (type(s).__name__, s is fs), fs), max_workers=workers, retry=retry, progress=None)
+                if got != ("frozenset", True):
+                    what = f"a frozenset that contains a node, passed as an argument, arrived as {got} (type, the very object)"
+        except Exception as e:      # noqa: BLE001
+            what = f"raised {type(e).__name__}: {str(e)[:100]}"
+        done += 1
+        if what:
+            viol.append({"property": "C02", "what": f"{kind}, {workers} worker(s), retry={retry}: {what}", "identity_case": case})
+            break
+    return viol, done
+
+
 def explore_small(ctx, n_edges_cases):
     rng = random.Random(ctx.seed * 8191 + 3)
     dis, lines, cases = [], [], []
@@ -1034,6 +1095,10 @@ def explore(ctx):
     viol += v2
     dis += d2
     cov.update(c2)
+    if not viol:
+        v3, n3 = identity_cases()
+        viol += v3
+        cov["identity_cases"] = n3
     cov["evaluations"] = cov["runs"]
     cov["rule"] = ("seeded programs over Plan.lit/call/gather/unpack/add_dependency with nested list/tuple/set/dict/opaque "
                    "values, shared and cloned sub-objects, nodes as set elements and dict keys, one node used several times, "
@@ -1122,6 +1187,9 @@ def search(ctx, broken):
 
 def replay(ctx, payload):
     w = payload.get("witness", payload)
+    if "identity_case" in w:
+        v, _ = identity_cases(only=w["identity_case"])
+        return v[0]["what"] if v else None
     if "replay_unpack" in w:
         n, ln = w["replay_unpack"]
         try:
